@@ -817,7 +817,7 @@ def is_int_term(v: Term) -> bool:
     if v[0] == "app":
         if v[1] == "sum" and len(v) == 3 and isinstance(v[2], tuple) and v[2][:1] == ("map",) and is_int_term(v[2][1]):
             return True   # a sum of integers
-        if v[1] in ("and", "or", "xor") and len(v) == 4 and is_int_term(v[2]) and is_int_term(v[3]):
+        if v[1] in ("and", "or", "xor", "mod", "floordiv", "lshift", "rshift") and len(v) == 4 and is_int_term(v[2]) and is_int_term(v[3]):
             return True
         return v[1] in ("int", "crc_hqx", "binascii.crc_hqx", "floordiv_int", "sum_int")
     if v[0] == "eattr":
@@ -954,6 +954,33 @@ def arith(op: str, a: Term, b: Term) -> Term:
             part = T.slice_seq(("seq", "s", a[1]), int(w_) - k_, int(w_)) if op == "mod" else T.slice_seq(("seq", "s", a[1]), 0, int(w_) - k_)
             if not is_top(part):
                 return T.uint_of(part[2])
+    # a left shift of an integer by a constant is a multiplication by a power of two
+    if op == "lshift" and is_c(b) and isinstance(b[1], int) and not isinstance(b[1], bool) and 0 <= b[1] <= 64 and is_int_term(a) and not is_c(a):
+        return arith("mul", a, c(1 << b[1]))
+    # a | b of non-negative integers with no bit in common is a + b: one a multiple of 2**k, the other below 2**k
+    if op == "or" and is_int_term(a) and is_int_term(b) and not is_c(a) and not is_c(b):
+        for hi_, lo_ in ((a, b), (b, a)):
+            rl_, rh_ = T.int_range(lo_), T.int_range(hi_)
+            if rl_ is None or rh_ is None or rl_[0] is None or rl_[1] is None or rl_[0] < 0 or rh_[0] is None or rh_[0] < 0:
+                continue
+            m_ = 1 << max(rl_[1], 0).bit_length()
+            lh_ = Lin.of(hi_) if hi_[0] in ("lin",) else None
+            if lh_ is not None and isinstance(lh_.const, int) and lh_.const % m_ == 0 and lh_.const >= 0 and all(isinstance(q, int) and q > 0 and q % m_ == 0 for q in lh_.coef.values()) \
+                    and all((T.int_range(t_) or (None, None))[0] is not None and T.int_range(t_)[0] >= 0 for t_ in lh_.coef):
+                return arith("add", hi_, lo_)
+    # quotient / remainder of a sum whose terms are multiples of k plus a rest within [0, k): the multiples / the rest
+    if op in ("floordiv", "mod") and is_c(b) and isinstance(b[1], int) and not isinstance(b[1], bool) and b[1] > 1 and a[0] == "lin":
+        la_ = Lin.of(a)
+        k_ = b[1]
+        if isinstance(la_.const, int) and all(isinstance(q, int) for q in la_.coef.values()):
+            div_ = Lin({t_: q for t_, q in la_.coef.items() if q % k_ == 0}, la_.const - la_.const % k_)
+            rest_ = Lin({t_: q for t_, q in la_.coef.items() if q % k_ != 0}, la_.const % k_)
+            rt_ = rest_.term()
+            rr_ = (rt_[1], rt_[1]) if is_c(rt_) else T.int_range(rt_)
+            if div_.coef and rr_ is not None and rr_[0] is not None and rr_[1] is not None and 0 <= rr_[0] and rr_[1] < k_:
+                if op == "mod":
+                    return rt_
+                return Lin({t_: q // k_ for t_, q in div_.coef.items()}, div_.const // k_).term()
     # identities with 0 on integers: 0 | x, x | 0, 0 ^ x, x ^ 0 are x
     if op in ("or", "xor"):
         for k_, x_ in ((a, b), (b, a)):
@@ -962,7 +989,7 @@ def arith(op: str, a: Term, b: Term) -> Term:
     lin_ok = lambda v: v[0] in ("c", "lin", "sym", "len", "uint", "app", "dec", "eattr", "attr", "item", "elemof", "argmin", "argmax")  # noqa: E731
     if op in ("add", "sub") and lin_ok(a) and lin_ok(b) and not _is_datetime_like(a) and not _is_datetime_like(b):
         la, lb = Lin.of(a), Lin.of(b)
-        return (la + lb).term() if op == "add" else (la - lb).term()
+        return _recombine(la + lb if op == "add" else la - lb).term()
     if op == "mul" and lin_ok(a) and lin_ok(b):
         if is_c(a) and isinstance(a[1], (int, float)):
             return Lin.of(b).scale(a[1]).term()
@@ -1005,6 +1032,18 @@ def arith(op: str, a: Term, b: Term) -> Term:
             # exact division of every coefficient: value is integral *as a float*; keep as marked term
             return ("app", "truediv", a, b)
     return app(op, [a, b])
+
+
+def _recombine(l: Lin) -> Lin:
+    """q*k*(x // k) + q*(x % k) is q*x (every integer x, k > 0)."""
+    for t_, q in list(l.coef.items()):
+        if isinstance(t_, tuple) and t_[:2] == ("app", "mod") and len(t_) == 4 and is_c(t_[3]) and isinstance(t_[3][1], int) and t_[3][1] > 0 and isinstance(q, int):
+            d_ = ("app", "floordiv", t_[2], t_[3])
+            if l.coef.get(d_) == q * t_[3][1] and is_int_term(t_[2]):
+                co = dict(l.coef)
+                del co[t_], co[d_]
+                return _recombine(Lin(co, l.const) + Lin.of(t_[2]).scale(q))
+    return l
 
 
 def _is_datetime_like(v: Term) -> bool:
@@ -1476,6 +1515,22 @@ def format_value(I: Any, x: Term, spec: str, st: Any, ctx: Any, node: ast.AST) -
     ba = byte_atom_of(x)
     if ba is not None and spec in ("02x", "02X"):
         return ("seq", "s", (ba if spec == "02x" else ("upper", ba),))
+    if spec in ("04x", "06x", "08x") and x[0] == "lin" and is_int_term(x):
+        # the zero-padded hex text of a sum of bytes at their positions (256*hi + lo, ...) is the hex of those bytes, high first
+        n_ = int(spec[1]) // 2
+        rx_ = T.int_range(x)
+        if rx_ is not None and rx_[0] is not None and rx_[1] is not None and 0 <= rx_[0] and rx_[1] < 256 ** n_:
+            parts_ = []
+            for k_ in range(n_ - 1, -1, -1):
+                q_ = arith("mod", arith("floordiv", x, c(256 ** k_)) if k_ else x, c(256))
+                ba_ = byte_atom_of(q_)
+                if ba_ is None:
+                    rq_ = T.int_range(q_)
+                    if not is_c(q_) and rq_ is not None and rq_[0] is not None and rq_[1] is not None and 0 <= rq_[0] and rq_[1] <= 255:
+                        ba_ = byte_atom_of(arith("mod", q_, c(256))) if q_[:2] != ("app", "mod") else None
+                parts_.append(("L", "%02x" % q_[1]) if is_c(q_) else ba_)
+            if all(p_ is not None for p_ in parts_):
+                return T.seq("s", tuple(parts_))
     # numeric presentation
     x = int_view(x)
     if is_c(x):
